@@ -35,7 +35,7 @@ LAWS = ["Inv_Reflexive", "Inv_Sensitive", "Inv_Atoms", "Inv_Options", "Inv_Headi
 DEFAULT = 191          # gfm tables tasks math footnotes toc, TOC level 3 (MdIn!OptOfMask)
 
 
-PAR = 6          # TLC processes run side by side (each with one worker)
+PAR = 8          # TLC processes run side by side (each with one worker)
 
 
 def tlc_par(ctx, jobs):
@@ -200,7 +200,7 @@ def cfg_of(ctx, name, lay, invariants, properties=()):
 def tiers(ctx):
     q = ctx.tier == "quick"
     allmasks = frozenset(range(256))
-    optmasks = frozenset(range(128, 192, 2)) | frozenset(range(1, 64, 6)) | S(DEFAULT, 0, 255, 64 + 21) if q else allmasks
+    optmasks = frozenset(range(128, 192, 4)) | frozenset(range(1, 64, 9)) | S(DEFAULT, 0, 255, 64 + 21) if q else allmasks
     mc = lambda q: layer(MaxNodes=3 if q else 4, MaxDepth=1, MaxInl=2, Atoms=S("w1", "e1"), Inls=S("em", "st", "code", "del") if q else S("em", "st", "code", "del", "math"),
                TopKinds=S("p", "h", "ul", "q", "fence", "tbl", "mathb", "hr", "icode"), InKinds=S("p", "ul"),
                HLevels=S(1, 3), HStyles=S("atx", "setext"), Tasks=S("none", "open"), AllowSB=True,
@@ -237,10 +237,10 @@ def tiers(ctx):
         # every way of calling the converter
         "calls": layer(MaxNodes=3, MaxDepth=1, MaxInl=1, MaxKids=1, Atoms=S("w1"), Inls=S("st"),
                        TopKinds=S("p", "h", "ul", "fence", "tbl", "q"), InKinds=S("p"), HLevels=S(2),
-                       OVMasks=S(DEFAULT, 0) if q else S(DEFAULT, 0, 128 + 42, 21),
+                       OVMasks=S(DEFAULT) if q else S(DEFAULT, 0, 128 + 42, 21),
                        OVApis=S("string", "bytes", "file", "batch", "missing"), OVCos=S("nil", "same"), OVWarms=vlib.Raw("{FALSE, TRUE}")),
     }
-    sim = dict(num=25, depth=60, limit=2000) if q else dict(num=300, depth=80, limit=30000)
+    sim = dict(num=16, depth=60, limit=1200) if q else dict(num=300, depth=80, limit=30000)
     simc = layer(MaxNodes=10 if q else 14, MinNodes=5 if q else 6, MaxDepth=3, MaxInl=3, MaxKids=4,
                  Atoms=S("w1", "w2", "w3", "w4", "u1", "x1", "e1", "n1", "a1", "a2", "x2", "u2"), CodeAtoms=S("w1", "w2", "m1", "m2", "x1"),
                  Inls=ALL_INL, TopKinds=ALL_TOP, InKinds=ALL_IN, HLevels=S(1, 2, 3, 4, 5, 6), HStyles=S("atx", "setext"),
